@@ -31,7 +31,7 @@ PROPS["C16"] = dict(
                "three mpi_*.hpp integrators (the live expression is observed per rank under the MPI shim in C04)",
     technique="bounded exhaustive enumeration + rapidcheck generated (total, world, rank) against an integer tiling model",
     exhaustive_claim=True,
-    exhaustive_space="all (total, world, rank) with total <= 300, world <= 64, rank < world; beyond it sampled",
+    exhaustive_space="all (total, world, rank) with total <= 300, world <= 64 (thorough tier: total <= 2100, world <= 512), rank < world; beyond it sampled",
     assumptions=ASSUME_COMMON + [
         "the per-rank share expression is copied textually from mpi_plain/mpi_vegas/mpi_multi_channel.hpp; "
         "the shares the integrators really use are observed under the MPI shim in C04",
